@@ -26,6 +26,7 @@ type VerifSub struct {
 	IndirectSent int
 	State        int
 	QueueFlag    int
+	Reaccess     bool // an access re-check is deferred until the queued events are released
 	Queued       int
 	HasAccess    bool
 	Refs         []string
@@ -63,6 +64,7 @@ func (s *Service) VerifConns() []VerifConn {
 					IndirectSent: sub.indirectsent,
 					State:        int(sub.state),
 					QueueFlag:    int(sub.queueFlag),
+					Reaccess:     sub.flags&flagReaccess != 0,
 					Queued:       len(sub.eventQueue),
 					HasAccess:    sub.access != nil,
 				}
